@@ -19,22 +19,6 @@ import Qryn.LogQL.PlannerMetricX
 namespace Qryn.LogQL
 open Qryn Qryn.Sql
 
-/-- vector aggregations incl. stdvar (population variance) and stddev (the oracle `sqrt` of it) -/
-def aggValO (o : Oracles) (fn : AggFn) (vs : List Rat) : Option Rat :=
-  match fn, vs with
-  | _, [] => none
-  | .stdvar, _ => some (varPopRat vs)
-  | .stddev, _ => some (o.sqrt (varPopRat vs))
-  | fn, vs => aggVal fn vs
-
-/-- unwrap range functions incl. stdvar_over_time / stddev_over_time -/
-def unwrapValO (o : Oracles) (fn : UnwrapFn) (durNs : Nat) (grp : List (Int × Rat)) : Option Rat :=
-  match fn, grp with
-  | _, [] => none
-  | .stdvarOT, _ => some (varPopRat (grp.map (·.2)))
-  | .stddevOT, _ => some (o.sqrt (varPopRat (grp.map (·.2))))
-  | fn, grp => unwrapVal fn durNs grp
-
 /-- `quantile_over_time(φ, …)` over the (timestamp, value) pairs of one (series, bucket) -/
 def quantileVal (o : Oracles) (phi : NumLit) (grp : List (Int × Rat)) : Option Rat :=
   match grp with
@@ -87,7 +71,7 @@ def rangePointsX (o : Oracles) (c : Ctx) (d : LokiDb) (r : RangeAggX) : List Pt 
       let grp := es.filter (fun e => keyOf e == k)
       ⟨.int k.1, (grp.head?.map (fun e => Val.map e.labels)).getD .null, k.2,
         lraVal fn r.durNs (grp.map (fun e => ⟨e.fp, e.ts, e.line, 0⟩))⟩)
-  | .unwrap fn label => groupRange r.durNs (unwrapValO o fn r.durNs) (items label)
+  | .unwrap fn label => groupRange r.durNs (unwrapVal o fn r.durNs) (items label)
   | .quantile phi label => groupRange r.durNs (quantileVal o phi) (items label)
 
 /-- the vector aggregation over points that carry their labels (none written: everything into the empty label set) -/
@@ -97,7 +81,7 @@ def aggStageX (o : Oracles) (a : VecOp) (pts : List Pt) : List Pt :=
   let keyOf := fun (p : Pt) => (p.key, p.ts)
   (items.map keyOf).eraseDups.filterMap (fun k =>
     let grp := items.filter (fun p => keyOf p == k)
-    (aggValO o a.fn (grp.map (·.value))).map (fun v => ⟨k.1, (grp.head?.map (·.labels)).getD .null, k.2, v⟩))
+    (aggVal o a.fn (grp.map (·.value))).map (fun v => ⟨k.1, (grp.head?.map (·.labels)).getD .null, k.2, v⟩))
 
 /-- the points of a metric query of the labelled path -/
 def metricPointsX (o : Oracles) (c : MCtx) (d : LokiDb) (q : MetricQueryX) : List Pt :=
